@@ -17,12 +17,12 @@ NA = {
 CHECKS = {
     "C02": dict(
         cat="other", technique="hbar-homogeneity (units-of-measure) typing + linear-form normalisation of the sampling-law arguments + outcome-order rule (AST dataflow)",
-        text="Decides three structural necessary clauses of the Born-rule property from source: (a) every sampling step feeds dimensionless kernels with hbar-degree-0 inputs and returns quadrature samples of degree 1/2; (b) the mean/cov arguments of the general-dyne normal draw normalise to mu and (sigma+sigma_m)/2 as linear forms; (c) outcomes are concatenated previous-first. It does not decide that the samplers have the exact law (numerical).",
+        text="Decides three structural necessary clauses of the Born-rule property from source: (a) every sampling step feeds dimensionless kernels with hbar-degree-0 inputs and returns quadrature samples of degree 1/2; (b) the mean/cov arguments of the general-dyne normal draw normalise to mu and (sigma+sigma_m)/2 as linear forms; (c) outcomes are concatenated previous-first and the requested mode order reaches the samplers' index construction. It does not decide that the samplers have the exact law (numerical).",
         note="Trusted: the degree seeds (config.hbar:1, ladder moments:0, documented parameter degrees) and the typing rules of DESIGN E5; python ast. Clause-level claim only.",
         ref="DESIGN 3/C02, 2/E5, 2/E6-linear"),
     "C03": dict(
         cat="other", technique="exactness dataflow (Fraction/Int/Prob abstract domain) over every Branch(frequency=...) site + shots-None dominance rule on the CFG",
-        text="Decides that on every path with shots given, every branch frequency is a Fraction with an integer numerator over shots (or a product of such) and that counts multiply by the integer shots before int(); and that every step admitted with shots=None never uses shots numerically without a dominating None test. Sums-to-norm / sequential=joint are numerical and not decided.",
+        text="Decides that on every path with shots given, every branch frequency is a Fraction with an integer numerator over the step's own shots parameter (or a product/sum of such), that the chain-rule update multiplies exact Fractions, and that counts are int(Fraction * shots); and that every step admitted with shots=None never uses shots numerically without a dominating None test. Sums-to-norm / sequential=joint are numerical and not decided.",
         note="Trusted: python ast; the abstract domain of DESIGN E7; fractions.Fraction semantics.",
         ref="DESIGN 3/C03, 2/E7"),
     "C04": dict(
@@ -31,8 +31,8 @@ CHECKS = {
         note="Trusted: the C++ declaration extractor (clang AST when available, a token-level declaration parser otherwise), LP64 type widths.",
         ref="DESIGN 3/C04, 2/E8b"),
     "C07": dict(
-        cat="proof", technique="algebraic normalisation (value numbering in Q(i)[cos,sin,exp,cosh,sinh]) of the closed-form gate blocks read from source; no execution, no solver",
-        text="For every built-in gate with closed-form blocks, proves P P^dagger = 1 (passive) and P P^dagger - A A^dagger = 1, P A^T = A P^T (active) as identities in the real parameters, and the documented identities (Fourier, 50:50, Mach-Zehnder, displacement variants) by normal form of the expressions translated from gates.py. The Gaussian congruence on arbitrary mode subsets is not decided.",
+        cat="proof", technique="algebraic normalisation (value numbering in Q(i)[cos,sin,exp,cosh,sinh]) of the closed-form gate blocks read from source + non-commutative matrix-word normal form of the moment update rules; no execution, no solver",
+        text="For every built-in gate with closed-form blocks, proves P P^dagger = 1 (passive) and P P^dagger - A A^dagger = 1, P A^T = A P^T (active) as identities in the real parameters, and the documented identities (Fourier, 50:50, Mach-Zehnder, displacement variants) by normal form of the expressions translated from gates.py. It also proves that the Gaussian simulator's update formulas for m, C, G (addressed block, cross blocks, Hermitian/symmetric fills) equal the update derived from a' = P a + A a^dagger in a non-commutative matrix-word algebra. That the index sets select the right blocks for arbitrary mode subsets is not decided.",
         note="Trusted: the syntax-directed translation table (np.cos/sin/exp/cosh/sinh/sqrt/array, arithmetic), sympy's polynomial normaliser, the docstring formulas transcribed as oracle.",
         ref="DESIGN 3/C07, 2/E6"),
     "C08": dict(
@@ -52,7 +52,7 @@ CHECKS = {
         ref="DESIGN 3/C11, 2/E4, 2/E8c"),
     "C12": dict(
         cat="other", technique="save/restore pairing on a CFG with exception edges + copy-before-use rule + alias/taint analysis of in-place writes on caller-owned and memoised objects + C++ buffer write-through rule",
-        text="Decides that caller-owned fields overwritten during execution are restored with the captured value on every exit including exception edges, that initial_state/config/nested instructions are only used through copies, that no in-place write reaches a value aliased to a user parameter or a memoised result, and that no native kernel writes through a shared numpy buffer. This property is structural; third-party code is outside.",
+        text="Decides that caller-owned fields overwritten during execution are restored with the captured value on every exit including exception edges (and that the overwrite itself is atomic), that initial_state/config/nested instructions are only used through deep copies, that no in-place write reaches a value aliased to a user parameter, the user's instruction list or a memoised result, and that no native kernel writes through a shared numpy buffer. This property is structural; third-party code is outside.",
         note="Trusted: CFG construction (every call/setter may raise), the alias rules (views vs copies) listed in DESIGN E3, the C++ extractor.",
         ref="DESIGN 3/C12, 2/E2, 2/E3, 2/E8a"),
     "C13": dict(
